@@ -24,6 +24,12 @@ func c02Units(tier string) []Unit {
 		{dbCfg{Mem: 40, Imm: 2, Block: 30, L0: 2, Ratio: 2, SL: 1}, cfgSmall, cfgMemOnly},
 		// for the size plans (largest keys and values): big blocks first, then one entry per table
 		{cfgBigBlocks, cfgRotateAlways, cfgBigBlocks},
+		// the same configuration in every run, every commit a table of its own and a compaction: what is written after a
+		// reopen leaves the memtable at once and has to win against what recovery found on disk
+		{cfgRotateAlways, cfgRotateAlways, cfgRotateAlways},
+		// ... and with three tables in L0 before it compacts: a wide table and the narrow ones written after it go down
+		// together, so that everything on disk has been through a compaction when the store is closed
+		{cfgL0Two, cfgL0Two, cfgL0Two},
 	}
 	// L0TargetNum / LevelRatio stay fixed for a directory
 	for i := range cfgSets {
@@ -47,6 +53,9 @@ func c02Units(tier string) []Unit {
 			{"d2+2reopens", single, 2, 2, []int{0}, false},
 			{"dev1/d2+1reopen", []txProg{full[0], full[7]}, 2, 1, []int{0, 1}, false},
 			{"sizes/d2+1reopen", sizes, 2, 1, []int{0}, false},
+			// two keys written and deleted in every order, then the reopen: the newest versions on disk may all be
+			// deletion markers that went through a compaction
+			{"d4+1reopen/deletes", []txProg{full[10], single[1], single[3], single[4]}, 4, 1, []int{0}, true},
 		}
 	} else {
 		plans = []plan{
@@ -63,7 +72,15 @@ func c02Units(tier string) []Unit {
 			for clock := 0; clock < 3; clock++ {
 				pl, cfgs, clock, ci := pl, cfgs, clock, ci
 				isSizes := len(pl.name) > 5 && pl.name[:5] == "sizes"
-				if isSizes != (ci == 5 || (isSizes && ci == 0)) {
+				if ci >= 6 {
+					// the constant sets: the delete-heavy plan and the basic one-reopen plan, first clock class
+					if clock != 0 || !(pl.name == "d4+1reopen/deletes" || (pl.name == "d3+1reopen" && ci == 6)) {
+						continue
+					}
+				} else if pl.name == "d4+1reopen/deletes" {
+					continue
+				}
+				if ci < 6 && isSizes != (ci == 5 || (isSizes && ci == 0)) {
 					continue // the size plans run on configuration sets 0 and 5, the others on 0..4
 				}
 				if isSizes && clock != 0 && tier == "quick" {
